@@ -25,6 +25,7 @@ pub fn stop_faults(d: &mut Driver) {
     let n = d.sim.nodes.len();
     for v in 0..n {
         d.sim.nodes[v].crash_mid_send = false;
+        d.sim.nodes[v].apply_hold = false;
         d.sim.nodes[v].store.with_mut(|s| {
             s.snap_unavailable = 0;
             s.fetch_unavailable = 0;
@@ -153,16 +154,21 @@ fn premise_holds(d: &Driver) -> bool {
     }
     // a majority of each voter set (as seen by any running node) is running
     let run: BTreeSet<u64> = running(d).iter().map(|&v| d.sim.nodes[v].id).collect();
+    let mut any_member = false;
     for &v in &running(d) {
         let c = &d.sim.nodes[v].conf;
         if c.voters.is_empty() {
             continue;
         }
+        any_member = true;
         if !c.is_quorum(&run) {
             return false;
         }
     }
-    !run.is_empty()
+    // only never-joined (blank) nodes left: every member has applied its own removal and was shut
+    // down by its application (possible when an id is removed and later re-added while the
+    // original holder of the id lags) - there is no group to make progress
+    any_member
 }
 
 fn one_round(d: &mut Driver, round: usize) {
@@ -527,6 +533,11 @@ pub fn transfer_completion(d: &mut Driver) {
     let l = c.leader;
     let lid = d.sim.nodes[l].id;
     let conf = d.sim.nodes[l].conf.clone();
+    if !conf.voters.contains(&lid) {
+        // a leader that has applied its own removal is about to be shut down by its application:
+        // not the healthy cluster the completion clause speaks about
+        return;
+    }
     let cands: Vec<usize> = c
         .members
         .iter()
@@ -557,11 +568,17 @@ pub fn transfer_completion(d: &mut Driver) {
         rounds += 1;
         let ur = match d.sim.nodes[u].raw.as_ref() {
             Some(r) => r,
-            None => break,
+            None => {
+                outcome = "node-shut-down";
+                break;
+            }
         };
         let lr = match d.sim.nodes[l].raw.as_ref() {
             Some(r) => r,
-            None => break,
+            None => {
+                outcome = "node-shut-down";
+                break;
+            }
         };
         if ur.raft.state == StateRole::Leader && ur.raft.term > t0 {
             // completed: the old leader must follow the target (once it has heard from it)
@@ -599,6 +616,8 @@ pub fn transfer_completion(d: &mut Driver) {
         }
         "abandoned-leader-usable" => d.sim.mon.stats.inc("c17.completion_abandoned_leader_usable"),
         "other-leader" => d.sim.mon.stats.inc("c17.completion_other_leader_elected"),
+        // a membership change that was still in the pipeline removed one of the two: not judged
+        "node-shut-down" => d.sim.mon.stats.inc("c17.completion_not_judged_node_shut_down"),
         _ => {
             if !premise_holds(d) {
                 return;
